@@ -3,6 +3,8 @@
 lines (TAB separated; bits as 0/1, '-' = empty; booleans 0/1):
   C19 str   <cls> <bits> <lsb0>                      -> ok [<text of str(s)>]
   C19 repr  <cls> <bits> <pos> <lsb0>                -> ok [<text of repr(s)>]
+  C19 reprf <cls> <file content bits, whole bytes> <mutation> <pos>
+                                                     -> ok [<repr of cls(filename=F) after the mutation, path shown as 'F'>]
   C19 parse [<initialiser string, %XX escapes>]      -> ok <bits> | err          (Bits(<string>), literal sub-language)
   C19 pp    <cls> <bits> <tok1> <tok2|-> <width> <sep code> <show_offset> <lsb0> <no_color>
                                                      -> ok T=<trailing text|-> E=<0|1|-> <len>:<g,g,..>[/<g,g,..>] ...  | err
@@ -12,7 +14,7 @@ lines (TAB separated; bits as 0/1, '-' = empty; booleans 0/1):
   C19 arrx  <dtype> <bits>                           -> ok roundtrip               (other unscaled dtypes: implementation + oracle only)
 """
 from harness.common import *
-import io, re, math, itertools
+import io, re, math, itertools, tempfile, shutil
 
 # ---------------------------------------------------------------------------------------------- GENERATED layer
 # MAX_CHARS, the *_bits2chars graphs and the default pp group sizes are re-read from the working tree on every run
@@ -231,6 +233,37 @@ def execute(line):
             extra["eval"] = guarded(ev)
         extra["after"] = wire(s)
         extra["pos_after"] = getattr(s, "pos", None)
+    elif op == "reprf":
+        cls, bits, mut, pos = f[2], unwire(f[3]), f[4], int(f[5])
+        d = tempfile.mkdtemp(prefix="verif-C19-")
+        try:
+            path = os.path.join(d, "data.bin")
+            with open(path, "wb") as fh:
+                fh.write(int(bits, 2).to_bytes(len(bits) // 8, "big") if bits else b"")
+            s = CLASSES[cls](filename=path)
+            if mut == "invert0":
+                s.invert(0)
+            elif mut == "append1":
+                s.append("0b1")
+            elif mut == "del8":
+                del s[:8]
+            elif mut == "overwrite8":
+                s.overwrite("0xff", 0)
+            if cls in ("ConstBitStream", "BitStream"):
+                s.pos = pos
+            cur = s.bin
+            out = guarded(lambda: repr(s).replace(repr(path), "'F'"), _enc)
+
+            def ev():
+                o = eval(repr(s), dict(_ns()))
+                return "%s %s %s %s" % (type(o).__name__, wire(o), getattr(o, "pos", "-"), o == s)
+            extra["eval"] = guarded(ev)
+            extra["cur"] = wire(cur)
+            extra["after"] = wire(s)
+            extra["pos_after"] = getattr(s, "pos", None)
+            del s
+        finally:
+            shutil.rmtree(d, ignore_errors=True)
     elif op == "parse":
         text = _dec(f[2])
         clear_caches()
@@ -376,6 +409,22 @@ def oracle(line, out, extra):
         if m.group(1) != cls or int(m.group(4)) != len(bits) or int(m.group(3) or 0) != (pos if cls in ("ConstBitStream", "BitStream") else 0):
             return "truncated repr names class/length/pos wrongly: %r" % text[-60:]
         return _truncated_ok(m.group(2), bits)
+    if op == "reprf":
+        cls, bits, mut, pos = f[2], unwire(f[3]), f[4], int(f[5])
+        if not out.startswith("ok ["):
+            return "repr() did not succeed: " + out
+        cur = {"none": bits, "invert0": ("1" if bits[:1] == "0" else "0") + bits[1:] if bits else "",
+               "append1": bits + "1", "del8": bits[8:], "overwrite8": "1" * min(8, len(bits)) + bits[8:]}[mut]
+        if extra["cur"] != wire(cur):
+            return "harness: unexpected value after the mutation"
+        if extra["after"] != wire(cur) or (extra["pos_after"] is not None and extra["pos_after"] != pos):
+            return "repr() changed the object"
+        want = "ok %s %s %s True" % (cls, wire(cur), pos if cls in ("ConstBitStream", "BitStream") else "-")
+        if len(cur) > 1000 and "..." in out:
+            return None if ("length=%d" % len(cur)) in out else "truncated repr without the true length"
+        if extra["eval"] != want:
+            return "eval(repr(s)) gives %s, expected %s" % (extra["eval"][:100], want[:100])
+        return None
     if op == "parse":
         text = _dec(f[2])
         # reference meaning of the sub-language the generator produces (see gen): whitespace anywhere, ',' separators,
@@ -491,23 +540,19 @@ def _oracle_pp(f, out, extra):
 
 
 # ---------------------------------------------------------------------------------------------- regions / misc
-def _lsb0_slices(n):
-    return n > 1000 or (n >= 32 and n % 4 != 0)
-
-
-def _r_lsb0_str(line):
+def _r_array_long_trailing(line):
+    """Known finding `array-long-trailing`: more than 1000 trailing bits in an Array."""
     f = line.split(SEP)
-    if f[1] == "str":
-        return f[4] == "1" and _lsb0_slices(len(unwire(f[3])))
-    if f[1] == "repr":
-        return f[5] == "1" and _lsb0_slices(len(unwire(f[3])))
-    if f[1] == "pp" and f[9] == "1":
-        _a, _n1, _b, _n2, n, _ = _pp_shape(f)
-        return bool(n) and _lsb0_slices(len(unwire(f[3])) % n)
-    return False
+    return f[1] == "arr" and int(f[3]) > 0 and len(unwire(f[4])) % int(f[3]) > 1000
 
 
-REGIONS = {"lsb0_str_slices": _r_lsb0_str}
+def _r_file_repr_mutated(line):
+    """Known finding `file-repr-after-mutation`: a mutable object created from a file and changed since."""
+    f = line.split(SEP)
+    return f[1] == "reprf" and f[4] != "none"
+
+
+REGIONS = {"array_long_trailing": _r_array_long_trailing, "file_repr_after_mutation": _r_file_repr_mutated}
 
 
 def nontrivial(line):
@@ -591,6 +636,13 @@ def gen(rng, tier):
         contents = [_pat(n), rand_bits(rng, n)] + ([rand_bits(rng, n) for _ in range(3)] if big and n else [])
         if n == 0:
             contents = [""]
+        e = n % 4
+        if e and n >= 4:
+            # every value of the 1-3 bits that do not fill a hex digit (leading zeros in the tail matter)
+            for tail in range(2 ** e):
+                bits = rand_bits(rng, n - e) + format(tail, "0%db" % e)
+                yield SEP.join(["C19", "str", "Bits", wire(bits), "0"])
+                yield SEP.join(["C19", "repr", rng.choice(CLASS_NAMES), wire(bits), "0", str(tail % 2)])
         for ci, bits in enumerate(contents):
             for cls in CLASS_NAMES:
                 if ci and cls not in ("Bits", rng.choice(CLASS_NAMES)):
@@ -603,6 +655,16 @@ def gen(rng, tier):
                     yield SEP.join(["C19", "repr", cls, wire(bits), str(p), "0"])
                     if rng.random() < 0.25:
                         yield SEP.join(["C19", "repr", cls, wire(bits), str(p), "1"])
+    # ------------------------------------------------------------------ repr of file-backed objects
+    for nbytes in [0, 1, 2, 3, 4, 5, 8, 16, 125, 126, 200] + ([1000, 4096] if big else []):
+        bits = rand_bits(rng, nbytes * 8)
+        for cls in CLASS_NAMES:
+            poss = [0] if cls in ("Bits", "BitArray") else sorted({0, min(nbytes * 8, 1), nbytes * 4})
+            for p in poss:
+                yield SEP.join(["C19", "reprf", cls, wire(bits), "none", str(p)])
+            if cls in MUTABLE and nbytes:
+                for mut in ("invert0", "append1", "del8", "overwrite8"):
+                    yield SEP.join(["C19", "reprf", cls, wire(bits), mut, "0"])
     # ------------------------------------------------------------------ literal parser
     hexd, octd, bind = "0123456789abcdefABCDEF", "01234567", "01"
 
@@ -668,7 +730,7 @@ def gen(rng, tier):
                     shapes.append(("bin:%d" % n, b))
                     shapes.append((b, "bin:%d" % n))
     shapes += [("hex:3", None), ("oct:4", None), ("hex:8", "oct:12"), ("bin:8", "hex:4"), ("oct:8", "bin:8"), ("hex:6", "oct:6")]
-    for n in list(range(0, 71)) + [72, 96, 119, 120, 121, 128, 999, 1000, 1001, 1008, 1009]:
+    for n in list(range(0, 71)) + [72, 96, 99, 100, 101, 119, 120, 121, 128, 999, 1000, 1001, 1008, 1009, 9999, 10000, 10008]:
         for (t1, t2) in shapes:
             if not big and rng.random() < (0.55 if n <= 70 else 0.8):
                 continue
@@ -677,7 +739,7 @@ def gen(rng, tier):
             yield _pp_line(rng, rng.choice(CLASS_NAMES), bits, t1, t2, w, rng.choice(seps + more_seps if rng.random() < 0.2 else seps),
                            rng.random() < 0.5, rng.random() < 0.35, rng.random() < 0.6)
     # (c) random
-    for _ in range(60000 if big else 9000):
+    for _ in range(250000 if big else 20000):
         n = rng.choice([rng.randint(0, 70), rng.randint(0, 70), rng.randint(71, 300), rng.randint(985, 1015), rng.choice(BOUNDARY_LENGTHS)])
         t1, t2 = _rand_fmt(rng, n)
         n = _fit_len(rng, n, t1, t2)
@@ -695,6 +757,8 @@ def gen(rng, tier):
                         continue
                     bits = rand_bits(rng, items * n + t)
                     yield SEP.join(["C19", "arr", kind, str(n), wire(bits)])
+    for kind, n, total in (("uint", 1004, 1001), ("int", 2000, 1500), ("uint", 1004, 1000), ("hex", 1004, 2008 + 1003), ("uint", 1200, 999)):
+        yield SEP.join(["C19", "arr", kind, str(n), wire(rand_bits(rng, total))])
     for dt, n in (("float16", 16), ("float32", 32), ("float64", 64), ("floatle32", 32), ("floatbe64", 64), ("bfloat", 16), ("bfloatle", 16),
                   ("p3binary", 8), ("p4binary", 8), ("uintle16", 16), ("intbe24", 24), ("uintne32", 32), ("intle64", 64), ("bits5", 5), ("bits8", 8)):
         for _ in range(40 if big else 8):
